@@ -36,6 +36,10 @@ def junk_line(rng):
     if k < 0.85:
         return rng.choice(["no delimiters at all", "just text", "12345", "-----", "=====", "STRT", "COMP WELL", "a b c d", "(null)",
                            "END", "\\", "???", "1 2 3 4"])
+    if k < 0.90:
+        # a colon before the first period, trailing/leading blanks and tabs
+        return rng.choice(["note: see rev. 2", "foo: 1.5", ":.", "remark : a.b.c : d", "   indented junk", "junk with trailing blanks   ",
+                           "\ttabbed\tjunk", "a:b.c", "x: y.z : w."])
     return rng.choice(["JUNK.M  12 : looks like an item", "Q . : ", "X.Y.Z : w", "K : v", "A.B C D", ".5", "5.", ". . .", ": : :",
                        "SERIAL. 12345678901234567890 : twenty digits", "1:9999999999999999999999", ". 7777777777777777777777777",
                        "BIG. -99999999999999999999999999999 : x", "E. 1e999 : overflow", "H. 0x1F : hex", "U. 1_000 : underscore",
@@ -88,6 +92,26 @@ def insert_junk(rng, text, n):
     return "\n".join(lines), inserted
 
 
+SYSTEMATIC_JUNK = ["note: see rev. 2", "foo: 1.5", ":.", "no delimiters at all", "X.Y.Z : w", "12345", "a:b.c"]
+
+
+def systematic_sites(rng, text):
+    """[(junked text, [junk])]: one junk line directly after the title / directly before the next title of each header section"""
+    lines = text.split("\n")
+    out = []
+    for letter, title_i, body in sections_of(lines):
+        if letter in ("C", "A", "O", ""):
+            continue
+        for pos in {title_i + 1, (body[-1] + 1) if body else title_i + 1}:
+            j = rng.choice(SYSTEMATIC_JUNK)
+            if not is_allowed_junk(j):
+                continue
+            ls = list(lines)
+            ls.insert(pos, j)
+            out.append(("\n".join(ls), [j]))
+    return out
+
+
 def genuine(las):
     """{section: [(original mnemonic, unit, value repr, descr)]} and the data"""
     out = {}
@@ -128,13 +152,55 @@ def oracle(base, junked):
                 return "text section %r changed" % k
         elif not is_subsequence(items, g1[k]):
             return "genuine items of %r are no longer a subsequence: %r vs %r" % (k, items, g1[k])
+    named = None
     try:
         lasio.read(junked)
     except lasio.exceptions.LASHeaderError as e:
-        pass
+        # "a header error naming that line": the message quotes one of the lines of the text, and that line is not a line of the base
+        msg = str(e)
+        base_lines = {ln.strip() for ln in base.split("\n")}
+        cands = [ln.strip() for ln in junked.split("\n") if ln.strip() and ln.strip() not in base_lines]
+        named = next((c for c in cands if '"%s"' % c in msg), None)
+        if named is None:
+            return "without the flag the header error does not name an inserted line: %r" % msg[-160:]
     except Exception as e:
         return "without the flag the junk raised %s instead of LASHeaderError" % type(e).__name__
+    if named is not None:
+        # with the flag the same line is skipped WITH A WARNING naming it
+        msgs = warnings_of(lambda: lasio.read(junked, ignore_header_errors=True))
+        if not any('"%s"' % named in m for m in msgs):
+            return "with the flag the unparsable line %r is skipped without a warning naming it (warnings: %r)" % (named[:60], [m[-80:] for m in msgs][:3])
     return None
+
+
+def warnings_of(fn):
+    """messages logged at WARNING level or above by lasio while fn runs (./check disables logging globally)"""
+    import logging
+    got = []
+
+    class H(logging.Handler):
+        def emit(self, record):
+            try:
+                got.append(record.getMessage())
+            except Exception:
+                got.append(str(record.msg))
+    h = H(level=logging.WARNING)
+    root = logging.getLogger("lasio")
+    prev_disable = logging.root.manager.disable
+    prev_level = root.level
+    logging.disable(logging.NOTSET)
+    root.addHandler(h)
+    if root.level == 0 or root.level > logging.WARNING:
+        root.setLevel(logging.WARNING)
+    try:
+        fn()
+    except Exception:
+        pass
+    finally:
+        root.removeHandler(h)
+        root.setLevel(prev_level)
+        logging.disable(prev_disable)
+    return got
 
 
 def run(ctx):
@@ -149,10 +215,15 @@ def run(ctx):
         bases.append(("gen:%d" % i, lasgen.render(s)[0]))
     per = 20 if ctx.thorough else 3
     cases, meta, kinds = [], [], set()
-    hist = {"junk_lines": 0, "with_flag": 0, "without_flag": 0, "junk_that_parses": 0}
+    hist = {"junk_lines": 0, "with_flag": 0, "without_flag": 0, "junk_that_parses": 0, "systematic_first_or_last_line": 0}
     for name, text in bases:
-        for _ in range(per):
-            junked, ins = insert_junk(rng, text, rng.randint(1, 5))
+        variants = [insert_junk(rng, text, rng.randint(1, 5)) for _ in range(per)]
+        # one junk line as the FIRST and one as the LAST line of a header section (every section kind over the bases)
+        sysv = systematic_sites(rng, text)
+        rng.shuffle(sysv)
+        variants += sysv[:(8 if ctx.thorough else 2)]
+        hist["systematic_first_or_last_line"] += len(sysv[:(8 if ctx.thorough else 2)])
+        for junked, ins in variants:
             if not ins:
                 continue
             bad = oracle(text, junked)
